@@ -24,7 +24,10 @@
 (*    RoundTrip     Parse(Print(v)) = v   alone, as object, inside a triple                          *)
 (*    Unambiguous   Print(v) = Print(w) => v = w                                                     *)
 (*    ParsersTotal  no input makes a parser panic                                                    *)
-(* They are expected to FAIL on the present design; every counterexample is printed                  *)
+(* ValueTextC.Repaired selects the design: FALSE = the parsers as first read (FIRST delimiter, no   *)
+(* length checks: RoundTrip and ParsersTotal FAIL, each counterexample was confirmed on the real    *)
+(* code and repaired in /repo), TRUE = the parsers of the current tree (LAST delimiter, length       *)
+(* checks before every slice expression).  Every counterexample is printed                           *)
 (* (<<"RTC", kind, level, chars>>, <<"AMB", ...>>, <<"PANIC", parser, chars>>) and handed to the Go driver; *)
 (* only what the real code then does, judged by ValueTrace.tla, produces a verdict.                  *)
 EXTENDS Integers, Sequences, FiniteSets, TLC, ValueTextC
@@ -43,13 +46,22 @@ TrimR(s) == IF s # <<>> /\ s[Len(s)] = "W" THEN TrimR(SubSeq(s, 1, Len(s) - 1)) 
 Trim(s) == TrimR(TrimL(s))
 
 \* first position of pat in s, 0 if none (strings.Index)
+Hits(s, pat) == {i \in 1..(Len(s) - Len(pat) + 1) : SubSeq(s, i, i + Len(pat) - 1) = pat}
 Index(s, pat) ==
-    LET hits == {i \in 1..(Len(s) - Len(pat) + 1) : SubSeq(s, i, i + Len(pat) - 1) = pat}
+    LET hits == Hits(s, pat)
     IN  IF hits = {} THEN 0 ELSE CHOOSE i \in hits : \A j \in hits : i <= j
+\* last position (strings.LastIndex)
+LastIndex(s, pat) ==
+    LET hits == Hits(s, pat)
+    IN  IF hits = {} THEN 0 ELSE CHOOSE i \in hits : \A j \in hits : i >= j
+\* the delimiter search of predicate.Parse / literal Parse in the selected design
+DelimIndex(s, pat) == IF Repaired THEN LastIndex(s, pat) ELSE Index(s, pat)
 
 Res(st, k, a, b) == [st |-> st, k |-> k, a |-> a, b |-> b]
 Err   == Res("err", "", <<>>, <<>>)
 Panic == Res("panic", "", <<>>, <<>>)
+\* what an out-of-range slice expression / index gives: a panic as first read, a checked error now
+Bad == IF Repaired THEN Err ELSE Panic
 
 \* ---- printers ------------------------------------------------------------------------------------
 Esc(c) == IF c = Q THEN <<BS, Q>> ELSE IF c = BS THEN <<BS, BS>> ELSE <<c>>
@@ -69,7 +81,7 @@ ValidID(i)   == i # <<>> /\ ~Has(i, "<") /\ ~Has(i, ">")
 \* ---- node.Parse -----------------------------------------------------------------------------------
 ParseNode(s0) ==
     LET raw == Trim(s0) IN
-    IF raw = <<>> THEN Panic                                           \* raw[0] of the empty string
+    IF raw = <<>> THEN Bad                                             \* raw[0] of the empty string
     ELSE IF raw[1] = "/" THEN
         LET idx == Index(raw, <<"<">>) IN
         IF idx = 0 THEN Err
@@ -78,7 +90,7 @@ ParseNode(s0) ==
         ELSE IF ~ValidID(SubSeq(raw, idx + 1, Len(raw) - 1)) THEN Err
         ELSE Res("ok", "node", SubSeq(raw, 1, idx - 1), SubSeq(raw, idx + 1, Len(raw) - 1))
     ELSE IF raw[1] = "_" THEN
-        IF Len(raw) < 2 THEN Panic                                     \* raw[2:] of a 1-byte string
+        IF Len(raw) < 2 THEN Bad                                       \* raw[2:] of a 1-byte string
         ELSE IF ~ValidID(SubSeq(raw, 3, Len(raw))) THEN Err
         ELSE Res("ok", "node", <<"/", "_">>, SubSeq(raw, 3, Len(raw)))
     ELSE Err
@@ -99,15 +111,15 @@ ParsePred(s0) ==
     LET raw == Trim(s0) IN
     IF raw = <<>> THEN Err
     ELSE IF raw[1] # Q THEN Err
-    ELSE LET i == Index(raw, <<Q, "@", "[">>) IN                       \* i = idx + 1
+    ELSE LET i == DelimIndex(raw, <<Q, "@", "[">>) IN                  \* i = idx + 1
          IF i = 0 THEN Err
-         ELSE IF i + 2 > Len(raw) - 1 THEN Panic                       \* raw[idx+3 : len(raw)-1], idx+3 > len-1
+         ELSE IF i + 2 > Len(raw) - 1 THEN Bad                         \* raw[idx+3 : len(raw)-1], idx+3 > len-1
          ELSE LET id == Unquote(SubSeq(raw, 1, i))
                   ta0 == SubSeq(raw, i + 3, Len(raw) - 1)
               IN  IF ~id.ok THEN Err
                   ELSE IF ta0 = <<>> THEN Res("ok", "pred", id.v, <<>>)
                   ELSE LET ta1 == IF ta0[1] = Q THEN Tail(ta0) ELSE ta0 IN
-                       IF ta1 = <<>> THEN Panic                        \* ta[len(ta)-1] of ""
+                       IF ta1 = <<>> THEN Bad                          \* ta[len(ta)-1] of "" (now: time.Parse("") fails)
                        ELSE LET ta2 == IF ta1[Len(ta1)] = Q THEN SubSeq(ta1, 1, Len(ta1) - 1) ELSE ta1 IN
                             IF ta2 = <<"T">> THEN Res("ok", "pred", id.v, <<"T">>) ELSE Err
 
@@ -116,15 +128,15 @@ ParseLit(s0) ==
     LET raw == Trim(s0) IN
     IF raw = <<>> THEN Err
     ELSE IF raw[1] # Q THEN Err
-    ELSE LET i == Index(raw, <<Q, "D">>) IN                            \* i = idx + 1
+    ELSE LET i == DelimIndex(raw, <<Q, "D">>) IN                       \* i = idx + 1
          IF i = 0 THEN Err
-         ELSE IF i = 1 THEN Panic                                      \* raw[1:idx] with idx = 0
+         ELSE IF i = 1 THEN Bad                                        \* raw[1:idx] with idx = 0
          ELSE LET v == SubSeq(raw, 2, i - 1)
                   t == SubSeq(raw, i + 2, Len(raw))
               IN  IF t = <<"text">> THEN Res("ok", "text", v, <<>>)
                   ELSE IF t = <<"int64">> THEN (IF v = <<"N">> THEN Res("ok", "int64", v, <<>>) ELSE Err)
                   ELSE IF t = <<"blob">> THEN
-                       IF Len(v) < 2 THEN Panic                        \* v[1:len(v)-1]
+                       IF Len(v) < 2 THEN Bad                          \* v[1:len(v)-1]
                        ELSE LET inner == SubSeq(v, 2, Len(v) - 1) IN
                             IF inner = <<>> \/ inner = <<"N">> THEN Res("ok", "blob", inner, <<>>) ELSE Err
                   ELSE Err                                             \* unknown type: an error
@@ -153,7 +165,7 @@ ParseTriple(s0) ==
     IN  IF ip = 0 \/ io = 0 THEN Err
         ELSE LET jp == MatchEnd(raw, ip, ">", {Q})
                  jo == MatchEnd(raw, io, "]", {"/", Q})
-             IN  IF jp - 1 > io THEN Panic                             \* raw[idxp[1]-1 : idxo[0]+1]
+             IN  IF jp - 1 > io THEN Bad                               \* raw[idxp[1]-1 : idxo[0]+1]
                  ELSE LET s == ParseNode(SubSeq(raw, 1, ip))
                           p == ParsePred(SubSeq(raw, jp, io))
                           o == ParseObj(SubSeq(raw, jo, Len(raw)))
